@@ -9,7 +9,7 @@ from ..core import asthelp as H
 from ..core.interp import Interp
 from ..core.progdb import AnalysisError, call_name
 from ..core.specrun import run_spec
-from ..core.values import Frame, Obj, PyTuple, to_term
+from ..core.values import ClassRef, Frame, Obj, PyTuple, to_term
 from ..specs.merge import MergeHook, check_merge, check_term, merged_frame_of
 from ..specs import kernel_type as KT
 
@@ -125,7 +125,17 @@ def run(db, chk) -> None:
         hook.reset()
         out = {}
         for p_ in H.param_names(fn):
-            if p_ in ("cls", "self"):
+            if p_ == "self" and "." in per_rank_q and per_rank_q.split(".")[0] != "CommunicationAnalysis" and per_rank_q.split(".")[0] in m.classes:
+                # a callable object: constructed as its own __init__ does, arguments given by role
+                cq = per_rank_q.split(".")[0]
+                init = m.functions.get(f"{cq}.__init__")
+                ia = []
+                for ip in (H.param_names(init)[1:] if init is not None else []):
+                    if "sym" not in ip:
+                        raise AnalysisError(f"{cq}.__init__: role of parameter {ip} not recognised")
+                    ia.append(T.P("sym_table"))
+                out[p_] = I.pm.invoke(ClassRef(m, cq), ia, {}, fn)
+            elif p_ in ("cls", "self"):
                 out[p_] = Obj("cls", cls=(m, "CommunicationAnalysis"))
             elif "sym" in p_:
                 out[p_] = T.P("sym_table")
@@ -212,16 +222,20 @@ def _one_path(db, chk, where, TR, run_, calls, ptag):
 
 
 def find_per_rank(m) -> str:
-    """the per-rank function of the overlap analysis, found by ROLE: the callee of get_comm_comp_overlap (nested closure or method of the class) that merges kernel intervals"""
+    """the per-rank function of the overlap analysis, found by ROLE: the callee of get_comm_comp_overlap (nested closure, method of the class, module function,
+    or the __call__ of a module-level callable class instantiated in get_comm_comp_overlap) that - itself or through its private helpers - merges kernel intervals"""
     outer = m.func("CommunicationAnalysis.get_comm_comp_overlap")
+
+    def merges(d_):
+        return any(isinstance(x, ast.Call) and call_name(x).split(".")[-1] == "merge_kernel_intervals" for g_ in H.with_private_callees(m, d_, depth=2) for x in ast.walk(g_))
     found = None
     for c_ in ast.walk(outer):
         if not isinstance(c_, ast.Call):
             continue
         nm_ = call_name(c_).split(".")[-1]
-        for q_ in (f"CommunicationAnalysis.get_comm_comp_overlap.{nm_}", f"CommunicationAnalysis.{nm_}", nm_):
+        for q_ in (f"CommunicationAnalysis.get_comm_comp_overlap.{nm_}", f"CommunicationAnalysis.{nm_}", nm_, f"{nm_}.__call__"):
             d_ = m.functions.get(q_)
-            if d_ is not None and d_ is not outer and any(isinstance(x, ast.Call) and call_name(x).split(".")[-1] == "merge_kernel_intervals" for x in ast.walk(d_)):
+            if d_ is not None and d_ is not outer and merges(d_):
                 found = q_
     if found is None:
         raise AnalysisError("get_comm_comp_overlap: no per-rank callee that merges kernel intervals was found")
@@ -236,7 +250,8 @@ def _rest(db, chk, m, TR):
     f3 = m.func("CommunicationAnalysis.get_comm_comp_overlap")
 
     def hook3(I, name, pos, kw, node):
-        if name.split(".")[-1] == find_per_rank(m).split(".")[-1]:
+        prq = find_per_rank(m)
+        if (name == prq) if prq.endswith(".__call__") else (name.split(".")[-1] == prq.split(".")[-1]):
             return T.P("RATIO")
         return NotImplemented
 
@@ -287,7 +302,7 @@ def thorough(db, chk) -> None:
             continue
         for comp in fams:
             want = len(cc & cells(comp)) / len(cc)
-            for fname in ("sweep_join", "sweep_col"):
+            for fname in ("sweep_join", "sweep_col", "sweep_join_labels", "sweep_col_labels"):
                 for (f1, f2, a1, a2) in ((comm, comp, 1, 2), (comp, comm, 2, 1)):
                     got = ns[fname](frame(f1), frame(f2), frame(comm), a1, a2, 3)
                     n += 1
